@@ -7,6 +7,7 @@ package c14
 
 import (
 	"fmt"
+	"math"
 	"sort"
 	"strconv"
 	"strings"
@@ -38,6 +39,9 @@ type gobj struct {
 	wu    *graph.WeightedUndirected
 	edges []edge // valid edges, insertion order
 	neg   bool
+	// weight scale of the case (header wexp=k): the integer weight w of an `edge` line reaches the library as
+	// float64(w)·2^k (exact), weights and distances read back are divided by 2^k before they are printed
+	wexp int
 
 	// lazily built oracle data
 	succ  [][]int
@@ -318,6 +322,10 @@ func Exec(c hx.Case) hx.Result {
 	tags := map[string]bool{}
 	var g *gobj
 	answered := false
+	wexp, _ := strconv.Atoi(hx.HeaderGet(c.Header, "wexp"))
+	if wexp != 0 {
+		tags["wexp="+strconv.Itoa(wexp)] = true
+	}
 	if hangs >= 2 {
 		return res
 	}
@@ -329,7 +337,7 @@ func Exec(c hx.Case) hx.Result {
 		var kind string
 		finished := hx.WithTimeout(opTimeout, func() {
 			kind = hx.Try(func() {
-				out = execOp(&g, f, i, bad, tags, &argOutOfRange, &answered)
+				out = execOp(&g, f, i, bad, tags, &argOutOfRange, &answered, wexp)
 			})
 		})
 		if !finished {
@@ -385,7 +393,7 @@ func Exec(c hx.Case) hx.Result {
 	return res
 }
 
-func execOp(gp **gobj, f []string, i int, bad func(int, string, ...any), tags map[string]bool, argOOR *bool, answered *bool) string {
+func execOp(gp **gobj, f []string, i int, bad func(int, string, ...any), tags map[string]bool, argOOR *bool, answered *bool, wexp int) string {
 	if len(f) == 0 {
 		return "bad-op"
 	}
@@ -396,7 +404,7 @@ func execOp(gp **gobj, f []string, i int, bad func(int, string, ...any), tags ma
 			if err != nil || n < 0 {
 				return "bad-op"
 			}
-			ng := &gobj{kind: f[1], n: n}
+			ng := &gobj{kind: f[1], n: n, wexp: wexp}
 			switch f[1] {
 			case "directed":
 				ng.d = graph.NewDirected(n)
@@ -417,6 +425,7 @@ func execOp(gp **gobj, f []string, i int, bad func(int, string, ...any), tags ma
 	n := g.n
 	atoi := func(s string) (int, bool) { v, err := strconv.Atoi(s); return v, err == nil }
 	valid := func(v int) bool { return v >= 0 && v < n }
+	us := func(x float64) float64 { return math.Ldexp(x, -g.wexp) } // undo the weight scale
 
 	switch f[0] {
 	case "edge":
@@ -438,9 +447,9 @@ func execOp(gp **gobj, f []string, i int, bad func(int, string, ...any), tags ma
 		case "undirected":
 			g.u.AddEdge(u, v)
 		case "wdirected":
-			g.wd.AddEdge(graph.VerifDirectedEdge(u, v, float64(w)))
+			g.wd.AddEdge(graph.VerifDirectedEdge(u, v, math.Ldexp(float64(w), g.wexp)))
 		case "wundirected":
-			g.wu.AddEdge(graph.VerifUndirectedEdge(u, v, float64(w)))
+			g.wu.AddEdge(graph.VerifUndirectedEdge(u, v, math.Ldexp(float64(w), g.wexp)))
 		}
 		if valid(u) && valid(v) {
 			g.edges = append(g.edges, edge{u, v, int64(w)})
@@ -803,7 +812,7 @@ func execOp(gp **gobj, f []string, i int, bad func(int, string, ...any), tags ma
 		tags["mst"] = true
 		m := g.wu.MinimumSpanningTree()
 		es := m.Edges()
-		wt := m.Weight()
+		wt := us(m.Weight())
 		// oracle: spanning forest of the weight Kruskal finds
 		avail := map[[3]int64]int{}
 		for _, e := range g.edges {
@@ -824,9 +833,9 @@ func execOp(gp **gobj, f []string, i int, bad func(int, string, ...any), tags ma
 		for k, e := range es {
 			x := e.Either()
 			y := e.Other(x)
-			ws, exact := wstr(e.Weight())
+			ws, exact := wstr(us(e.Weight()))
 			if !exact {
-				bad(i, "edge weight %v is not an integer", e.Weight())
+				bad(i, "edge weight %v is not an integer", us(e.Weight()))
 			}
 			if k > 0 {
 				b.WriteByte(' ')
@@ -836,7 +845,7 @@ func execOp(gp **gobj, f []string, i int, bad func(int, string, ...any), tags ma
 			if a > c {
 				a, c = c, a
 			}
-			key := [3]int64{int64(a), int64(c), int64(e.Weight())}
+			key := [3]int64{int64(a), int64(c), int64(us(e.Weight()))}
 			if avail[key] == 0 {
 				bad(i, "MST edge %d-%d:%s is not an edge of the graph (or used more often than it occurs)", x, y, ws)
 			} else {
@@ -845,7 +854,7 @@ func execOp(gp **gobj, f []string, i int, bad func(int, string, ...any), tags ma
 			if !valid(x) || !valid(y) || !u.union(x, y) {
 				bad(i, "MST edges %v contain a cycle at %d-%d", es, x, y)
 			}
-			sum += int64(e.Weight())
+			sum += int64(us(e.Weight()))
 		}
 		kw, kc := g.kruskal()
 		if len(es) != kc {
@@ -869,8 +878,8 @@ func execOp(gp **gobj, f []string, i int, bad func(int, string, ...any), tags ma
 			for k := 0; same && k < len(again); k++ {
 				same = again[k] == keepE[k]
 			}
-			if !same || m.Weight() != wt {
-				bad(i, "Edges()/Weight() = %v/%v first and %v/%v after the caller overwrote the returned slice", keepE, wt, again, m.Weight())
+			if !same || us(m.Weight()) != wt {
+				bad(i, "Edges()/Weight() = %v/%v first and %v/%v after the caller overwrote the returned slice", keepE, wt, again, us(m.Weight()))
 				break
 			}
 			for k := range again {
@@ -902,8 +911,9 @@ func execOp(gp **gobj, f []string, i int, bad func(int, string, ...any), tags ma
 		}
 		var lastPath []graph.DirectedEdge
 		answer := func(v int) string {
-			path, dist, found := t.PathTo(v)
+			path, rawDist, found := t.PathTo(v)
 			lastPath = path
+			dist := us(rawDist)
 			if found != (want[v] != inf) {
 				bad(i, "PathTo(%d) ok=%v but reachable=%v", v, found, want[v] != inf)
 				if !found {
@@ -911,7 +921,7 @@ func execOp(gp **gobj, f []string, i int, bad func(int, string, ...any), tags ma
 				}
 			}
 			if !found {
-				if dist != -1 || path != nil {
+				if rawDist != -1 || path != nil {
 					bad(i, "PathTo(%d) = (%v, %v, false)", v, path, dist)
 				}
 				return "-"
@@ -926,16 +936,16 @@ func execOp(gp **gobj, f []string, i int, bad func(int, string, ...any), tags ma
 			at := s
 			var sum int64
 			for k, e := range path {
-				ws, _ := wstr(e.Weight())
+				ws, _ := wstr(us(e.Weight()))
 				if k > 0 {
 					b.WriteByte(' ')
 				}
 				fmt.Fprintf(&b, "%d>%d:%s", e.From(), e.To(), ws)
-				if e.From() != at || !avail[[3]int64{int64(e.From()), int64(e.To()), int64(e.Weight())}] {
+				if e.From() != at || !avail[[3]int64{int64(e.From()), int64(e.To()), int64(us(e.Weight()))}] {
 					bad(i, "PathTo(%d): %d>%d:%s does not continue the path at %d or is not an edge", v, e.From(), e.To(), ws, at)
 				}
 				at = e.To()
-				sum += int64(e.Weight())
+				sum += int64(us(e.Weight()))
 			}
 			if at != v || sum != int64(dist) {
 				bad(i, "PathTo(%d) ends at %d with weight %d, reported distance %v", v, at, sum, dist)
